@@ -111,8 +111,14 @@ func gen(r *rand.Rand, kw string, depth int) *stmt {
 	sort.Strings(names)
 	for _, n := range names {
 		f := fields[n]
-		if (f.required || (f.reqKind != "" && f.reqKind == kw)) && r.Intn(60) != 0 {
-			s.sub = append(s.sub, gen(r, n, depth+1))
+		if f.required || (f.reqKind != "" && f.reqKind == kw) {
+			if r.Intn(60) != 0 {
+				s.sub = append(s.sub, gen(r, n, depth+1))
+			} else if r.Intn(2) == 0 {
+				// the mandatory substatement is absent, and an extension statement whose
+				// identifier is that very keyword stands in its place: still absent
+				s.sub = append(s.sub, gen(r, fmt.Sprintf("ex%d:%s", r.Intn(3), n), depth+1))
+			}
 		}
 	}
 	k := r.Intn(5)
@@ -128,6 +134,14 @@ func gen(r *rand.Rand, kw string, depth int) *stmt {
 			c = []string{":foo", "foo:", ":", "ex0:", ":ext1", "-:-", "ex0:ext.1-x"}[r.Intn(7)]
 		case x < 8:
 			c = fmt.Sprintf("ex%d:ext%d", r.Intn(3), r.Intn(3))
+			if r.Intn(3) == 0 {
+				// an extension named like a keyword of this very context (or any keyword):
+				// it is an extension all the same, neither a duplicate nor a stand-in
+				c = fmt.Sprintf("ex%d:%s", r.Intn(3), names[r.Intn(len(names))])
+				if r.Intn(4) == 0 {
+					c = fmt.Sprintf("ex%d:%s", r.Intn(3), allKw[r.Intn(len(allKw))])
+				}
+			}
 		default:
 			c = names[r.Intn(len(names))]
 			f := fields[c]
